@@ -159,8 +159,7 @@ Definition read_frame (chk : bool) (s : bytes) : fres :=
     if len =? -1 then (if chk then FPanic else FErr)
     else if len <? -1 then FPanic
     else if len <? 4 then FErr
-    else let n := Z.to_nat (len - 4) in
-         if len - 4 <=? blen r then FOk c len (firstn n r) (skipn n r) else FMore
+    else if len - 4 <=? blen r then FOk c len (firstn (Z.to_nat (len - 4)) r) (skipn (Z.to_nat (len - 4)) r) else FMore
   | _ => FMore
   end.
 
@@ -180,9 +179,8 @@ Definition get_startup (s : bytes) : sres * bytes :=
   | a :: b :: c :: d :: r =>
     let len := i32_of a b c d in
     if len <? 4 then (SPanic, r)
-    else let n := Z.to_nat (len - 4) in
-         if len - 4 <=? blen r then
-           let body := firstn n r in let rest := skipn n r in
+    else if len - 4 <=? blen r then
+           let body := firstn (Z.to_nat (len - 4)) r in let rest := skipn (Z.to_nat (len - 4)) r in
            match body with
            | w :: x :: y :: z :: ps =>
              let code := i32_of w x y z in
@@ -243,8 +241,7 @@ Definition read_password (chk : bool) (s : bytes) : pwres :=
            let len := i32_of a b d e in
            if len <? -2147483644 then (if chk then PwPanic else PwMore)   (* i32 overflow; wraps to ~2 GiB: calloc + wait *)
            else if len <? 4 then PwPanic                                  (* negative as usize: capacity overflow *)
-           else let n := Z.to_nat (len - 4) in
-                if len - 4 <=? blen r then PwOk (firstn n r) (skipn n r) else PwMore
+           else if len - 4 <=? blen r then PwOk (firstn (Z.to_nat (len - 4)) r) (skipn (Z.to_nat (len - 4)) r) else PwMore
          | _ => PwMore
          end
   end.
@@ -404,9 +401,9 @@ Record opts := mkO {
   o_user : bytes; o_db : bytes;        (* the configured pool *)
   o_user_trust : bool; o_admin_trust : bool;
   o_pw_user : bytes; o_pw_admin : bytes;   (* the MD5 responses that would be accepted (salt dependent: read from the trace) *)
-  o_custom : bytes -> bool;    (* the query matches exactly one of the 7 custom-command regexes (C13) *)
+  o_custom : bytes -> N;       (* C13: 0 = not a custom command; 1 = custom command answered normally; 2 = answered with error_response *)
   o_ph : bytes -> list Z;      (* placeholders [infer] pushes for this query (sqlparser + automatic_sharding_key: environment) *)
-  o_adminfx : bytes -> bool    (* admin query is BAN/UNBAN/RELOAD/PAUSE/RESUME/SHUTDOWN *)
+  o_adminfx : bytes -> N       (* admin query: 0 = unsupported (error_response); 1 = answered; 2 = BAN/UNBAN/RELOAD/PAUSE/RESUME/SHUTDOWN *)
 }.
 
 Inductive next := NCont (st : pstate) | NEnd (h : how) | NBlocked (st : pstate).
@@ -589,8 +586,9 @@ Definition idle_msg (o : opts) (c : cstate) (code : byte) (len : Z) (body : byte
   match tec_prefix (o_regex o) code len body with
   | Panic | Err => done_end HPanic [] obs rest
   | Ok cmd =>
-    if match cmd with Some q => o_custom o q | None => false end
-    then done_z (NCont (Idle c)) [FxReply RCustom] ZI obs rest
+    let cu := match cmd with Some q => o_custom o q | None => 0%N end in
+    if (cu =? 1)%N then done_z (NCont (Idle c)) [FxReply RCustom] ZI obs rest
+    else if (cu =? 2)%N then done_z (NCont (Idle c)) [FxReply RErrZ] ZI obs rest
     else
     let of_b := fun b => match b with
                          | BOk c' => done_local (Idle c') [] obs rest
@@ -631,9 +629,10 @@ Definition admin_msg (o : opts) (code : byte) (len : Z) (body : bytes) (obs : li
        | Err => done_end HErr [] obs rest
        | Panic => done_end HPanic [] obs rest
        | Ok _ =>
-         if o_adminfx o (removelast body)
-         then done_z (NCont AdminIdle) [FxAdmin; FxReply RCustom] ZI obs rest
-         else done_z (NCont AdminIdle) [FxReply RCustom] ZI obs rest
+         let a := o_adminfx o (removelast body) in
+         if (a =? 2)%N then done_z (NCont AdminIdle) [FxAdmin; FxReply RCustom] ZI obs rest
+         else if (a =? 1)%N then done_z (NCont AdminIdle) [FxReply RCustom] ZI obs rest
+         else done_z (NCont AdminIdle) [FxReply RErrZ] ZI obs rest
        end.
 
 (** Client::startup after parse_startup (client.rs:438-789) *)
